@@ -2,6 +2,7 @@
 use std::io::{BufRead, Write};
 
 mod asm;
+mod fuzz;
 mod info;
 mod sym;
 mod helper;
@@ -18,6 +19,7 @@ fn main() {
         let res = match mode.as_str() {
             "asm" => asm::run(&toks),
             "info" => info::run(&toks),
+            "fuzz" => fuzz::run(&toks),
             "sym" => sym::run_sym(&toks),
             "src" => sym::run_src(&toks),
             _ => panic!("unknown mode"),
